@@ -693,3 +693,135 @@ def fork_obligations(repo, chk, rule, why):
     overrides = sorted(q for q, f2 in repo.functions.items() if q.startswith("interpret.") and q.endswith(".fork") and q != fk.qual)
     chk.ob(rule, "interpret:fork-always-makes-a-new-accumulator", fresh and not overrides, fk.where,
            f"fork() returns type(self)(...) on every path ({[norm(r.value)[:40] for r in rets]}) and no accumulator class overrides it{(' -- overridden in ' + str(overrides)) if overrides else ''}: {why}")
+
+
+def call_extension_obligations(repo, chk, rule):
+    """In the evaluation actions of the selector language, `call.clone(captures=..)` / `call.clone(children=..)` extend what the call already
+    has (`call.captures + ..`), captures receive Element objects only and children Call objects only: a chain attached to a call keeps the
+    sibling calls written in its parentheses, and a nested sequence never becomes a child."""
+    import ast
+    from ..core import AnalysisError, norm, walk_local
+    from ..astq import is_name
+    actions = [fi for q, fi in repo.functions.items() if fi.module == "selector" and
+               any(isinstance(d, ast.Call) and isinstance(d.func, ast.Attribute) and d.func.attr == "register_action" for d in fi.node.decorator_list)]
+    # what goes into the captures / children of a call: extensions of what is there, Elements into captures, Calls into children
+    n_ext = 0
+    for fi in sorted(actions, key=lambda f: f.qual):
+        for n in walk_local(fi.node):
+            if not (isinstance(n, ast.Call) and isinstance(n.func, ast.Attribute) and n.func.attr == "clone" and isinstance(n.func.value, ast.Name)):
+                continue
+            recv = n.func.value.id
+            for k in n.keywords:
+                if k.arg not in ("captures", "children"):
+                    continue
+                n_ext += 1
+                v = k.value
+                ext = isinstance(v, ast.BinOp) and isinstance(v.op, ast.Add) and norm(v.left) == f"{recv}.{k.arg}"
+                added = v.right if ext else None
+                want_kind = "Element" if k.arg == "captures" else "Call"
+                kinds_ok, what = None, "?"
+                if added is not None:
+                    src = added
+                    if isinstance(src, ast.Name):
+                        defs = [a for a in walk_local(fi.node) if isinstance(a, ast.Assign) and len(a.targets) == 1 and is_name(a.targets[0], src.id)]
+                        src = defs[-1].value if defs else src
+                    if isinstance(src, ast.Call) and is_name(src.func, "tuple") and len(src.args) == 1:
+                        src = src.args[0]
+                    if isinstance(src, (ast.GeneratorExp, ast.ListComp)) and len(src.generators) == 1 and isinstance(src.generators[0].target, ast.Name) \
+                            and is_name(src.elt, src.generators[0].target.id):
+                        tests = [norm(c) for c in src.generators[0].ifs]
+                        kinds_ok = tests == [f"isinstance({src.generators[0].target.id}, {want_kind})"]
+                        what = f"the items of {norm(src.generators[0].iter)} filtered by {tests}"
+                    elif isinstance(src, ast.Tuple):
+                        kinds_ok = True          # single items: their kinds are decided by the operand-kind flow above
+                        what = f"the item(s) {norm(src)}"
+                chk.ob(rule, f"{fi.qual}:{k.arg}-extended-with-{want_kind}s-only", bool(ext) and kinds_ok is True, fi.where,
+                       f"`{recv}.clone({k.arg}=...)` keeps what the call already had and adds {what}: " + ("" if ext else f"the new value `{norm(v)[:60]}` does not start from `{recv}.{k.arg}`; ")
+                       + ("" if kinds_ok else f"only {want_kind} objects may be added (a nested sequence is neither a variable nor a call)"))
+    if n_ext < 6:
+        raise AnalysisError(f"only {n_ext} clone(captures= / children=) sites found in the evaluation actions (confirmed by hand: 7)")
+
+
+def meta_tag_agreement_obligations(repo, chk, rule, H=None):
+    """A meta event (#enter, #exit, #yield, #receive, #loop_v ...) is emitted under the decision `should_instrument(name, TAG)` for the very
+    TAG it is delivered with: a selector that reaches it only through its tag (`f > $x:@enter`) instruments it exactly when it can match it."""
+    from ..xform import query as Q
+    if H is None:
+        cls, H, stats = Q.templates(repo, chk.tier)
+    n, bad = 0, set()
+    for hname, paths in H.items():
+        for p in paths:
+            for x, dec in Q.with_decisions(p.template, p.decisions):
+                if not Q.is_interact(x):
+                    continue
+                ix = Q.Interact(x)
+                sym = repr(ix.symname)
+                if not sym.startswith(("'#", "#")):
+                    continue
+                ann = repr(ix.ann)
+                ann = "None" if ann in ("K(None)", "None") else ann
+                mine = [(k, v) for k, v in dec if k.startswith("instrument|") and k.split("|")[1] == sym]
+                if not mine:
+                    continue
+                n += 1
+                other = sorted({k.split("|", 2)[2] for k, v in mine if k.split("|", 2)[2] != ann})
+                if other:
+                    bad.add(f"{hname}: {sym} is delivered with category {ann} but its emission also depends on should_instrument({sym}, {other})")
+    if n == 0:
+        from ..core import AnalysisError
+        raise AnalysisError("no meta-variable interaction with its instrumentation decision found in the templates")
+    chk.ob(rule, "templates:meta-events-decided-under-the-tag-they-carry", not bad, "ptera/transform.py (delimit, visit_Yield, visit_For)",
+           f"every meta interaction ({n} occurrences) is emitted under should_instrument(name, tag) for the same tag it passes to interact" + (f": {sorted(bad)[:4]}" if bad else ""))
+
+
+def intercept_combination_obligations(repo, chk, rule):
+    """WorkingFrame.intercept combines the answers of all overriding handlers of a variable: ABSENT when nobody answers, otherwise the
+    last answer that is not ABSENT, handlers asked in registration order.  A handler that declines (its value condition fails: the checked
+    wrapper answers ABSENT) never displaces the answer of another one."""
+    import ast
+    from ..core import norm, walk_local
+    from ..astq import conds, expand, facts_of, is_name, names_in, returns_of
+    wi = repo.func("interpret.WorkingFrame.intercept")
+    fwi = facts_of(wi)
+    wr = returns_of(wi.node)
+    R = wr[0].value.id if len(wr) == 1 and isinstance(wr[0].value, ast.Name) else "<result>"
+    init = [n for n in wi.node.body if isinstance(n, ast.Assign) and is_name(n.targets[0], R)]
+    chk.ob(rule, "interpret.WorkingFrame.intercept:default-ABSENT", len(init) == 1 and is_name(init[0].value, "ABSENT") and len(wr) == 1, wi.where,
+           "without an answering handler the result is ABSENT (= keep the original value)")
+    inner = [n for n in walk_local(wi.node) if isinstance(n, ast.Assign) and is_name(n.targets[0], R) and n not in init]
+    ok = len(inner) == 1
+    if ok:
+        ans = expand(inner[0].value, wi.node)
+        cs = [c for t, c, n in fwi.items if n is inner[0]][0]
+        gate = f"{ans} is not ABSENT"
+        if isinstance(inner[0].value, ast.Name):        # the answer may be named inside the test itself: `(tmp := acc.intercept(..)) is not ABSENT`
+            for w_ in ast.walk(wi.node):
+                if isinstance(w_, ast.NamedExpr) and is_name(w_.target, inner[0].value.id):
+                    ans = norm(w_.value)
+                    gate = f"({inner[0].value.id} := {ans}) is not ABSENT"
+        ok = ans.startswith("acc.intercept(") and gate in cs and not any(R in names_in(ast.parse(c, mode="eval")) for c in conds(inner[0], wi.node))
+    chk.ob(rule, "interpret.WorkingFrame.intercept:last-non-ABSENT-wins", ok, wi.where,
+           "each handler's non-ABSENT answer overwrites the previous one (no 'first answer sticks' condition on the result)")
+    loops = [n for n in walk_local(wi.node) if isinstance(n, ast.For)]
+    chk.ob(rule, "interpret.WorkingFrame.intercept:list-order", len(loops) == 1 and norm(loops[0].iter) == "self.accumulators", wi.where,
+           "handlers are asked in list order (no reversal), so 'last' is the last registered")
+
+
+
+def registration_obligations(repo, chk, rule):
+    """Interactor.register files one (element, accumulator) PAIR per matching variable name, by appending, and the working frame asks every
+    pair in that order: two captures of one selector that both match a binding (`f($x:@A, $y:@B)` on a binding tagged A & B) are two entries."""
+    import ast
+    from ..core import norm, walk_local
+    from ..astq import conds, facts_of, iter_text
+    rg = repo.func("interpret.Interactor.register")
+    frg = facts_of(rg)
+    accp = rg.node.args.args[1].arg
+    regs_ = [n for t, c, n in frg.items if isinstance(n, ast.Call) and t.startswith("self.accumulators[")]
+    ok = len(regs_) == 1 and norm(regs_[0].func).endswith("].append") and norm(regs_[0].args[0]) == f"(element, {accp})" and not conds(regs_[0], rg.node) \
+        and frg.loops(regs_[0]) == [f"for (element, varnames) in {rg.node.args.args[2].arg}.items()", f"for {norm(regs_[0].func.value.slice)} in varnames"]
+    chk.ob(rule, "interpret.Interactor.register:appends", ok, rg.where, "accumulators are registered by appending")
+    wf = repo.func("interpret.WorkingFrame.__init__")
+    lc = [n for n in walk_local(wf.node) if isinstance(n, ast.ListComp)]
+    chk.ob(rule, "interpret.WorkingFrame.__init__:keeps-order", len(lc) == 1 and iter_text(lc[0].generators[0].iter) == "accumulators.get(varname, ())", wf.where,
+           "the working frame keeps the registration order of the matching accumulators")
